@@ -175,7 +175,7 @@ func buildLib(cfg *propCfg, tier string, scratch string) *build {
 		infra("corpus: %v", err)
 	}
 	bin := filepath.Join(scratch, "lib.test")
-	args := []string{"test", "-c", "-overlay", ovPath, "-vet=off", "-o", bin}
+	args := []string{"test", "-c", "-tags", "verif", "-overlay", ovPath, "-vet=off", "-o", bin}
 	if cfg.Race {
 		args = append(args, "-race")
 	}
